@@ -4,7 +4,11 @@ schema = json.load(open("/root/.vp/EVIDENCE.schema.json"))
 bad = 0
 for f in sorted(glob.glob("/verif/evidence/*.json")):
     try:
-        jsonschema.validate(json.load(open(f)), schema)
+        d = json.load(open(f))
+        jsonschema.validate(d, schema)
+        # beyond the schema: a record for an exploration / fault-enumeration level needs at least one sample
+        if len(d.get("coverage", {}).get("samples", [])) < 1:
+            raise ValueError("coverage.samples is empty")
         print("ok ", f)
     except Exception as e:
         bad += 1
